@@ -21,6 +21,7 @@ type oracles struct {
 	model  bool // C02: publication exactly when observed && quorum, per the reference model
 	gossip bool // C03: unacceptable observations leave no trace, acceptable ones are recorded
 	live   bool // C13: after the script a fresh message still reaches quorum
+	contracts *vh.Contracts // C07: every locally published VAA is accepted by the interpreted contract verifiers
 	digest bool // C04: every own SignedObservation carries the reference digest of the observed message
 	adv    bool // C13: adversarial ops allowed (injection before the first set, arbitrary injected VAAs)
 	pfx    string
@@ -376,6 +377,11 @@ func (r *runner) step(i int, x op) *vh.Violation {
 					return v
 				}
 			}
+			if r.o.contracts != nil {
+				if v := r.contractsAccept(b); v != nil {
+					return v
+				}
+			}
 		}
 		for id, ch := range so.changed {
 			r.nStored++
@@ -578,5 +584,37 @@ func (r *runner) liveness() *vh.Violation {
 	if _, err := vh.RefVerifyVAA(so.vaas[0], set.Addrs); err != nil {
 		return vh.V("C13/stopped-processing", "fresh message published but invalid: %v", err)
 	}
+	return nil
+}
+
+// contractsAccept (C07): a VAA the node considers complete must be accepted by governance.ral's
+// parseAndVerifyVAA and by Messages.sol's verification, for the guardian set the VAA names.
+func (r *runner) contractsAccept(b []byte) *vh.Violation {
+	p, err := vh.RefParse(b)
+	if err != nil {
+		return vh.V("C07/published-unparsable", "%v", err)
+	}
+	set := r.e.setByIdx[p.GSIndex]
+	if set == nil {
+		return vh.V("C07/published-names-unknown-set", "set %d", p.GSIndex)
+	}
+	c := r.o.contracts
+	if _, err := c.RalphParseAndVerify(b, p.GSIndex, set.Addrs); err != nil {
+		if vh.IsAbort(err) {
+			return vh.V("C07/contract-rejects-node-complete-vaa", "governance.ral parseAndVerifyVAA rejects a VAA the node published as complete (set %d, n=%d, %d signatures): %v", p.GSIndex, len(set.Addrs), len(p.Sigs), err)
+		}
+		return vh.V("harness/extractor", "%v", err)
+	}
+	vm, err := c.SolParseVM(b)
+	if err == nil {
+		err = c.SolVerify(vm, set.Addrs)
+	}
+	if err != nil {
+		if vh.IsAbort(err) {
+			return vh.V("C07/contract-rejects-node-complete-vaa", "Messages.sol verification rejects a VAA the node published as complete (set %d, n=%d, %d signatures): %v", p.GSIndex, len(set.Addrs), len(p.Sigs), err)
+		}
+		return vh.V("harness/extractor", "%v", err)
+	}
+	r.label("contracts-accepted-published-vaa")
 	return nil
 }
